@@ -8,6 +8,7 @@ CFG_VALIDATE = "pgcat::config::Config::validate"
 POOL_VALIDATE = "pgcat::config::Pool::validate"
 USER_VALIDATE = "pgcat::config::User::validate"
 SHARD_VALIDATE = "pgcat::config::Shard::validate"
+PLUGINS_VALIDATE = "pgcat::config::Plugins::validate"
 FROM_CONFIG = "pgcat::pool::ConnectionPool::from_config::{closure#0}"
 
 CONTRACT = {
@@ -22,7 +23,7 @@ CONTRACT = {
     "re:^tokio::runtime::builder::Builder::worker_threads$": "tokio:worker_threads>0",
 }
 
-SCAN = r"^pgcat::(pool|mirrors|query_router|admin|auth_passthrough|sharding)::"
+SCAN = r"^(<)?pgcat::(pool|mirrors|query_router|admin|auth_passthrough|sharding|plugins)::"
 
 # configuration quantities (by field name as it appears in the typed places) -> quantity id
 QUANT = {
@@ -35,9 +36,11 @@ QUANT = {
     "default_shard": "default_shard", "regex_search_limit": "regex_search_limit",
     "servers": "servers", "mirroring_target_index": "mirror_index", "mirrors": "mirrors",
     "ban_time": "ban_time", "error_count": "error_count", "worker_threads": "worker_threads",
+    "autoreload": "autoreload", "shutdown_timeout": "shutdown_timeout", "schema": "intercept-schema",
+    "prepared_statements_cache_size": "stmt_cache_size",
 }
 # fields that only hold other configuration (collections / sub-structs); their leaves are what matters
-CONTAINERS = {"pools", "general", "users", "user", "settings", "address", "plugins", "shards_map", "path", "database", "host", "username",
+CONTAINERS = {"pools", "general", "users", "user", "settings", "address", "plugins", "queries", "intercept", "config", "shards_map", "path", "database", "host", "username",
               "pool_name", "password", "query", "port", "role", "id", "replica_number", "stats", "db", "name"}
 
 # quantities whose panic-capable uses are harmless by construction, with the reason
@@ -49,6 +52,7 @@ BENIGN = {
     "mirror_index": "compared for equality with an enumerate index; out-of-range mirrors are ignored (informational)",
     "servers": "iterated with enumerate; emptiness validated by Shard::validate",
     "default_shard": "compared with Address.shard; range validated against shards.len()",
+    "stmt_cache_size": "only handed on (0 = off is tested where the LRU is built); the unwrap it reaches in MirroredClient::create_pool is of bb8's build() without min_idle, which opens no connection and cannot fail",
 }
 
 # quantity -> validators that must exist (all of them)
@@ -66,6 +70,9 @@ NEEDS = {
     "worker_threads": ["worker_threads>0"],
     "regex-group": ["regex-has-capture-group"],
     "username": ["usernames-unique"],
+    "autoreload": ["autoreload>0"],
+    "shutdown_timeout": ["shutdown_timeout>0"],
+    "intercept-schema": ["intercept-schema-rows-complete"],
 }
 
 
@@ -146,6 +153,28 @@ def has_validator(rets, fields=(), callee_pats=(), consts=()):
     return None
 
 
+def closure_argument_fields(F, name, depth=0):
+    """configuration fields the *arguments* of closure `name` derive from: the other operands of the call the closure is handed to
+    (`collection.iter().map(closure)`), followed through enclosing closures"""
+    par = F.closure_parents().get(name)
+    if par is None or depth > 3:
+        return set()
+    pb = par[0]
+    out = set()
+    for c in pb.calls():
+        hit = False
+        for a in c.args:
+            for o in origins(pb, a):
+                if o.kind == "agg" and o.extra.get("agg") in ("closure", "coroutine") and strip_generics(o.extra.get("def", "")) == name.replace("bin:", ""):
+                    hit = True
+        if hit:
+            for a in c.args:
+                out |= F.deep_fields(pb, a)
+                if any(o.kind == "param" and isinstance(o.what, int) and o.what >= 2 for o in origins(pb, a, taint=True)):
+                    out |= closure_argument_fields(F, pb.name, depth + 1)
+    return out
+
+
 def run(ctx):
     F = ctx.facts
     ctx.explanation = ("every panic-capable or positional use (unwrap/expect/panic/index/Rem/overflow, bb8 and tokio builder contracts) of a value tainted by configuration fields in pool construction, "
@@ -155,9 +184,9 @@ def run(ctx):
 
     # ------------------------------------------------------------ validators
     rv = ctx.rule("C15-V", "validators: each is a `return Err(BadConfig)` control-dependent on the quantity it guards, reachable from Config::validate", floor=10)
-    rets = {fn: badconfig_returns(F, fn) for fn in (CFG_VALIDATE, POOL_VALIDATE, USER_VALIDATE, SHARD_VALIDATE)}
+    rets = {fn: badconfig_returns(F, fn) for fn in (CFG_VALIDATE, POOL_VALIDATE, USER_VALIDATE, SHARD_VALIDATE, PLUGINS_VALIDATE)}
     for fn, r in rets.items():
-        if r is None:
+        if r is None and fn != PLUGINS_VALIDATE:
             rv.missing("body " + fn)
     # validators are wired: Config::validate -> Pool::validate -> Shard/User::validate, with `?`
     cg = F.callgraph()
@@ -190,6 +219,12 @@ def run(ctx):
     vcheck("worker_threads>0", CFG_VALIDATE, "general.worker_threads must not be 0 (tokio's runtime builder asserts)", fields=["general", "worker_threads"], consts=[0])
     vcheck("regex-has-capture-group", POOL_VALIDATE, "routing regexes need the capture group the router reads", callee_pats=["re:^regex::regex::string::Regex::captures_len$"])
     vcheck("usernames-unique", POOL_VALIDATE, "user names are unique within a pool (they key the pools)", fields=["users"], callee_pats=["re:HashSet.*::(insert|len)$"])
+    vcheck("autoreload>0", CFG_VALIDATE, "general.autoreload must not be 0 (it is the period of a tokio interval, which asserts period > 0)", fields=["general", "autoreload"], consts=[0])
+    vcheck("shutdown_timeout>0", CFG_VALIDATE, "general.shutdown_timeout must not be 0 (period of the interval in the SIGINT arm's timer task)", fields=["general", "shutdown_timeout"], consts=[0])
+    vcheck("intercept-schema-rows-complete", PLUGINS_VALIDATE, "every schema entry of an intercept rule has a name and a type (Intercept::run indexes row[0] and row[1])", fields=["schema"])
+    if rets.get(PLUGINS_VALIDATE) is not None:
+        pv_callers = set(F.callers_of(PLUGINS_VALIDATE))
+        rv.check({CFG_VALIDATE, POOL_VALIDATE} <= pv_callers, "wired:Plugins", "Plugins::validate is called for the general section (Config::validate) and for a pool's own (Pool::validate)", "Plugins::validate is called from %s only" % sorted(pv_callers))
     vcheck("credentials-present", CFG_VALIDATE, "every user has a password unless auth_query is configured", fields=["password"])
     # ... and `auth_query is configured` is asked of the user's own pool (round 5: the any-pool helper Config::is_auth_query_configured
     # let a password-less user of a pool without auth_query through; nobody can ever log in as that user)
@@ -361,7 +396,7 @@ def run(ctx):
     seen_keys = {}
     nsites = 0
     for n, b in sorted(F.bodies.items()):
-        is_main = n in ("bin:pgcat::main", "bin:pgcat::main::{closure#0}")
+        is_main = n == "bin:pgcat::main" or n.startswith("bin:pgcat::main::{closure")
         if (not re.search(SCAN, n) or "::test::" in n or n.startswith("bin:")) and not is_main:
             continue
         sites = panic_sites(b, include_expansion=False) if not is_main else []
@@ -400,10 +435,18 @@ def run(ctx):
                     if o.kind in ("place", "param") and o.proj:
                         fl = [p[1:] for p in o.proj if p.startswith(".") and not p[1:].isdigit()]
                         root_ty = b.locals[o.what]["ty"] if isinstance(o.what, int) else ""
-                        if fl and fl[-1] in allcfg and "pgcat::" in root_ty:
+                        # the root is a pgcat value, or the closure / async block itself (a captured configuration value)
+                        if fl and fl[-1] in allcfg and ("pgcat::" in root_ty or root_ty.lstrip("&").startswith(("{async block", "{closure", "{async closure"))):
                             flds.add(fl[-1])
                     if o.kind == "param" and in_fc_closure:
                         param_t = True
+            # values that reach the site through a closure: captured ones (edition 2021 captures the field itself, e.g. `config.general.shutdown_timeout`
+            # of the SIGINT timer task) and the elements of the collection the closure is applied to (`schema.iter().map(|row| .. row[1] ..)`)
+            if "::{closure" in n:
+                for op in ops:
+                    flds |= {f for f in F.deep_fields(b, op) if f in allcfg}
+                    if any(o.kind == "param" and isinstance(o.what, int) and o.what >= 2 for o in origins(b, op, taint=True)):
+                        flds |= closure_argument_fields(F, n) & allcfg
             quants = {QUANT[f] for f in flds if f in QUANT}
             if s.get("force_quant"):
                 # only the routing regexes configured per pool (statics like the command regexes have literal patterns)
